@@ -146,6 +146,12 @@ def generate(kinds, tier, rng):
             c["tofile"] = rng.random() < 0.7
             c["options"] = rng.choice([None, [], ["rankdir=LR;"]])
             yield c
+            # the whole tree, unrestricted, through the file writer (hundreds of lines)
+            c = make_case(rng, kind, t, t[0], ([], [], None))
+            c["tofile"] = True
+            c["iterations"] = 1
+            c["partial"] = 0
+            yield c
     for _ in range(300 if tier == "quick" else 4000):
         t = gen.labelled(gen.random_shape(rng, rng.randrange(4, 13 if tier == "quick" else 30)), rng, True)
         yield make_case(rng, rng.choice(kinds), t, rng.choice(gen.tree_labels(t)))
